@@ -177,7 +177,7 @@ func TestC07(t *testing.T) {
 		return
 	}
 	rapid.Check(t, func(t *rapid.T) {
-		lo := gen.LayoutOpts{Plain: gen.Pick(t, "plainpct", []int{40, 70, 90})}
+		lo := gen.LayoutOpts{Plain: gen.Pick(t, "plainpct", []int{40, 70, 90}), PHuge: 1}
 		sc := genSource(t, cfgC07(t), lo)
 		// page-sized inputs: pad in front with a comment so that the 4096-byte
 		// boundary visits every phase relative to the tokens
